@@ -221,3 +221,11 @@ def _forall_v(ip, args, kw):
     tags = kw.get("tags")
     b = as_bool(ip.call_closure(clo, [ZV(v, "Trace") for v in vs]))
     return ZB(z3.ForAll(vs, b))
+
+
+@spec("forall_str2")
+def _forall_str2(ip, args, kw):
+    clo = args[0]
+    a, b = L.fresh("rs", L.S), L.fresh("rs", L.S)
+    body = as_bool(ip.call_closure(clo, [ZS(a), ZS(b)]))
+    return ZB(z3.ForAll([a, b], body))
